@@ -159,6 +159,28 @@ def fault_scenarios(cases, prop):
                     "meta": dict(c, family="fault")})
     return out
 
+def c02_fault_scenarios(prop):
+    """C02 when the router says no: policies that are installed and change in one family only (what the agent sends for
+    them is a patch relative to what it fetched), and the router refuses the open of the instance / one of the loads.
+    Whatever the agent does next, every payload it sends is judged on the state it meets, and nothing is written to
+    another instance."""
+    out = []; k = 0
+    kinds = ["rpc-error", "tag:resource-denied", "error+warning", "tag:in-use"]
+    for target, index in [("open", 0), ("load", 1), ("load", 2), ("load", 3)]:
+        for kind in kinds:
+            irr = Irr(); running = []; policies = {}; eph0 = []
+            for i, (inst, tgt) in enumerate([((["a"], ["c"]), (["a", "b"], ["c"])), ((["a", "b"], ["c"]), (["a", "b"], [])), ((["r9"], ["c"]), (["r9", "a"], ["c"]))]):
+                name = f"inst-{i}"; expr = irr.asset_with(*tgt)
+                eph0.append(installed(name, *inst))
+                running.append(stmt(name, f"/* bgpfu-fltr: {expr} */"))
+                policies[name] = exp(True, True, "ok", tgt[0], tgt[1], expr, f"installed, one family changes; {kind} at {target} {index}")
+            out.append({"case": f"{prop}-rf{k}", "instance": "bgpfu-inst", "eph0": eph0,
+                        "runs": [{"running": running, "irr": irr.db, "faults": [{"target": target, "index": index, "kind": kind}], "repeat": False,
+                                  "expect": {"prop": prop, "c16": False, "policies": policies}}],
+                        "meta": {"family": "refused", "target": target, "index": index, "kind": kind}})
+            k += 1
+    return out
+
 BAD = {"sunk-then-fail": ("AS{asn} AND AS-MISSING{k}", "sunk"), "unknown-as-set": ("AS-MISSING{k}", None), "error-E": ("AS-ERR{k}", "E"), "error-F": ("AS-ERR{k}", "F"),
        # the unsupported construct is not in the policy's own expression but in the filter-set it names
        "fset-regex": ("FLTR-UNSUP-RE{k}", "fset:<^AS65001 .* AS65002$>"), "fset-peeras": ("FLTR-UNSUP-PA{k} OR AS-NOBODY{k}", "fset:PeerAS"),
@@ -189,14 +211,14 @@ def c03_scenarios(cases, prop):
     for k, c in enumerate(cases):
         name = f"bad-{k}"
         if c["installed"]:
-            eph0.append(installed(name, ["a"], ["c"]))
+            eph0.append(installed(name, [], []) if c.get("empty") else installed(name, ["a"], ["c"]))
         if c["class"] == "malformed-annotation":
             running.append(stmt(name, "/* bgpfu-fltr: error! */"))
             policies[name] = exp(False, True, "none", why="malformed-annotation installed=%s" % c["installed"])
         else:
             expr, ev = bad_policy(irr, c["class"], k)
             running.append(stmt(name, f"/* bgpfu-fltr: {expr} */"))
-            policies[name] = exp(True, True, ev, why=f"{c['class']} installed={c['installed']}")
+            policies[name] = exp(True, True, ev, why=f"{c['class']} installed={c['installed']}" + (" without prefixes" if c.get("empty") else ""))
     # several installed policies whose expressions share one unobtainable set (and one that mixes it with good data)
     for cls in ("unknown-as-set", "error-F"):
         sexpr, sev = bad_policy(irr, cls, f"-SHARED-{cls[:3].upper()}")
@@ -233,12 +255,12 @@ def c03_scenarios(cases, prop):
     out.append({"case": f"{prop}-all", "instance": "bgpfu", "eph0": eph0, "runs": runs, "meta": {"family": "c03"}})
     # one scenario per case as well (so that one failing case cannot mask another)
     for k, c in enumerate(cases):
-        irr = Irr(); name = f"bad-{k}"; eph = [installed(name, ["a"], ["c"])] if c["installed"] else []
+        irr = Irr(); name = f"bad-{k}"; eph = [installed(name, [], []) if c.get("empty") else installed(name, ["a"], ["c"])] if c["installed"] else []
         if c["class"] == "malformed-annotation":
             st = stmt(name, "/* bgpfu-fltr: error! */"); e = exp(False, True, "none", why="malformed-annotation installed=%s" % c["installed"])
         else:
             expr, ev = bad_policy(irr, c["class"], k)
-            st = stmt(name, f"/* bgpfu-fltr: {expr} */"); e = exp(True, True, ev, why=f"{c['class']} installed={c['installed']}")
+            st = stmt(name, f"/* bgpfu-fltr: {expr} */"); e = exp(True, True, ev, why=f"{c['class']} installed={c['installed']}" + (" without prefixes" if c.get("empty") else ""))
         gexpr = irr.asset_with(["d"], ["c"])
         out.append({"case": f"{prop}-c{k}", "instance": "bgpfu", "eph0": eph,
                     "runs": [{"running": [st, stmt("good", f"/* bgpfu-fltr: {gexpr} */")], "irr": irr.db, "faults": [], "repeat": False,
